@@ -35,6 +35,9 @@ class World:
         self.irs = {"M": [], "S": []}          # incarnation strings, index = epoch
         self.handle_old = handle_old
         self.results = []                      # one entry per lookup: dict(who, kind, fired=[...])
+        self.retry = {"M": None, "S": None}     # armed: the next errback of x re-enters getBrokerForTubRef with k hints
+        self.reentered = 0
+        self.dying = None
         self.graveyard = []
         for x in NAMES:
             self._start(x)
@@ -66,13 +69,31 @@ class World:
         return link.ends[0] if link.client_name == x else link.ends[1]
 
     # ------------------------------------------------------------ operations
-    def lookup(self, x, nhints=1, full=True):
+    def name_links(self):
+        """every link gets client_name = M/S of the Tub (current or past incarnation) that dialled it"""
+        for l in self.net.links:
+            if not hasattr(l, "client_name"):
+                for x in NAMES:
+                    if l.client_tub is self.tub[x] or any(l.client_tub is g and n == x for n, g in self.graveyard):
+                        l.client_name = x
+                if not hasattr(l, "client_name"):
+                    raise RuntimeError("link dialled by an unknown Tub")
+
+    def lookup(self, x, nhints=1, full=True, reenter=None):
         """tub x looks up the other tub's object (getReference) -- or, full=False, only asks for the Broker
-        (Tub.getBrokerForTubRef: exactly the waiter mechanism, without the follow-up remote call)."""
-        t = self.tub[x]
-        rec = dict(who=x, fired=[], epoch=self.epoch[x], t0=E.clock.seconds(), at=[])
-        self.results.append(rec)
+        (Tub.getBrokerForTubRef: exactly the waiter mechanism, without the follow-up remote call).
+        reenter = dict(left=n, on="err"|"ok"|"both", hints=k): the application's callback/errback of this lookup
+        SYNCHRONOUSLY issues another lookup for the same Tub (an instant retry / a second FURL of that Tub), n deep."""
         n0 = len(self.net.links)
+        self._issue(x, nhints, full, reenter)
+        E.turn()
+        self.name_links()
+        return self.net.links[n0:]
+
+    def _issue(self, x, nhints, full, reenter, depth=0):
+        t = self.tub[x]
+        rec = dict(who=x, fired=[], epoch=self.epoch[x], t0=E.clock.seconds(), at=[], depth=depth)
+        self.results.append(rec)
         furl = self.furl(other(x), nhints)
         if full:
             d = t.getReference(furl)
@@ -80,17 +101,22 @@ class World:
             d = t.getBrokerForTubRef(SturdyRef(furl).getTubRef())
 
         def fired(res, rec=rec):
-            rec["fired"].append(res.type.__name__ if isinstance(res, failure.Failure) else "ok")
+            bad = isinstance(res, failure.Failure)
+            rec["fired"].append(res.type.__name__ if bad else "ok")
             rec["at"].append(E.clock.seconds())
-            if isinstance(res, failure.Failure):
-                return None
-            return res
+            if self.tub[x] is t and t.running and self.dying != x:
+                # re-entrant lookups, issued from inside the callback / errback
+                if reenter and reenter["left"] > 0 and (reenter["on"] == "both" or (reenter["on"] == "err") == bad):
+                    self.reentered += 1
+                    self._issue(x, reenter.get("hints", nhints), full, dict(reenter, left=reenter["left"] - 1), depth + 1)
+                elif bad and self.retry.get(x):
+                    k = self.retry[x]
+                    self.retry[x] = None
+                    self.reentered += 1
+                    self._issue(x, k, full, None, depth + 1)
+            return None if bad else res
         d.addBoth(fired)
-        E.turn()
-        new = self.net.links[n0:]
-        for l in new:
-            l.client_name = x
-        return new
+        return rec
 
     def handshake_plaintext(self, link):
         """deliver the GET and the 101 of a fresh link, so that both hellos are in flight (the model's Dial)"""
@@ -154,6 +180,8 @@ class World:
         """the process of tub x dies (all its links are cut, it sees nothing more) and a new Tub with the same
         certificate -- a new incarnation with empty tables -- takes its place"""
         old = self.tub[x]
+        self.name_links()
+        self.dying = x
         for l in self.links_of(x):
             mine = self.end_of(l, x)
             self.cut(l)
@@ -171,7 +199,9 @@ class World:
         except Exception:
             pass
         E.turn()
-        self.graveyard.append(old)
+        self.graveyard.append((x, old))
+        self.dying = None
+        self.retry[x] = None
         self.epoch[x] += 1
         return self._start(x)
 
@@ -193,6 +223,7 @@ class World:
     def pending_steps(self):
         """(link index, what) for everything the network could still do"""
         out = []
+        self.name_links()
         for i, l in enumerate(self.net.links):
             for side in (0, 1):
                 if l.q[side]:
@@ -281,6 +312,7 @@ class World:
 
     def observe(self):
         """canonical snapshot compared with the model after every step"""
+        self.name_links()
         tubs = {}
         for x in NAMES:
             t = self.tub[x]
@@ -392,59 +424,155 @@ def obs_codes(w):
         fired = sum(len(r["fired"]) for r in w.results if r["who"] == x and r["epoch"] == w.epoch[x])
         out.append([-1 if t["broker"] is None else t["broker"], t["master"],
                     -1 if t["slave"] is None else t["slave"][0], -1 if t["slave"] is None else t["slave"][1],
-                    1 if t["connector"] else 0, t["waiters"], fired])
+                    1 if t["connector"] else 0, t["waiters"], fired, 1 if w.retry.get(x) else 0])
     for l in o["links"]:
         out.append([0 if l["client"] == "M" else 1, EST.get(l["M"], 8), EST.get(l["S"], 8), 1 if l["cut"] else 0]
                    + [MSG.get(m, 7) for m in l["qMS"]] + [9] + [MSG.get(m, 7) for m in l["qSM"]])
     return out
 
 
-def random_trace(rng, nsteps, p_restart=0.03, p_cut=0.06, p_timeout=0.04, p_lookup=0.14, maxhints=3):
+class Tracer:
+    """applies high-level steps to the real Tubs and records the model ops + the real state after each"""
+
+    def __init__(self):
+        self.w = World()
+        self.groups = []
+        self.shaken = 0                          # links [0, shaken) have had their GET/101 exchange
+
+    def apply(self, st):
+        w = self.w
+        kind = st[0]
+        if kind == "restart":
+            w.restart(st[1])
+            ops = [("Restart", st[1])]
+        elif kind == "cut":
+            w.cut(w.net.links[st[1]])
+            ops = [("Cut", st[1])]
+        elif kind == "timeout":
+            w.timeout(st[1])
+            ops = [("Timeout", st[1])]
+        elif kind == "armretry":
+            # the application arms an instant retry: its next errback calls getBrokerForTubRef again, synchronously
+            w.retry[st[1]] = st[2]
+            ops = [("ArmRetry", st[1])]
+        elif kind == "lookup":
+            w.lookup(st[1], st[2], full=False)
+            ops = [("GetRef", st[1])]
+        elif kind == "deliver":
+            i, side = st[1], st[2]
+            l = w.net.links[i]
+            dest = l.client_name if 1 - side == 0 else other(l.client_name)
+            w.deliver_block(l, side)
+            ops = [("Deliver", i, dest)]
+        elif kind == "closeseen":
+            i, side = st[1], st[2]
+            l = w.net.links[i]
+            who = l.client_name if side == 0 else other(l.client_name)
+            w.close_seen(l, side)
+            ops = [("CloseSeen", i, who)]
+        else:
+            raise ValueError(st)
+        # links dialled during this step (by the lookup itself, or by a lookup issued from inside an errback)
+        w.name_links()
+        for l in w.net.links[self.shaken:]:
+            w.handshake_plaintext(l)
+            ops.append(("DialHint", l.client_name))
+        self.shaken = len(w.net.links)
+        self.groups.append((ops, obs_codes(w), tuple(st)))
+
+    def drain(self, hold=()):
+        """deliver everything pending, first pending step first, except the held ones"""
+        for i in range(10000):
+            ps = [s for s in self.w.pending_steps() if s not in hold]
+            if not ps:
+                return
+            self.apply(ps[0])
+        raise RuntimeError("no quiescence")
+
+
+def random_trace(rng, nsteps, p_restart=0.03, p_cut=0.06, p_timeout=0.04, p_lookup=0.14, p_retry=0.05, maxhints=3):
     """-> (world, groups) where groups = [(model ops of this step, observation after it, description)]"""
-    w = World()
-    groups = []
+    tr = Tracer()
+    w = tr.w
     for stepno in range(nsteps):
         net_steps = w.pending_steps()
         r = rng.random()
         if r < p_restart:
-            x = rng.choice(NAMES)
-            w.restart(x)
-            ops = [("Restart", x)]
-            desc = ("restart", x)
+            st = ("restart", rng.choice(NAMES))
         elif r < p_restart + p_cut and any(not getattr(l, "was_cut", False) for l in w.net.links):
-            i = rng.choice([i for i, l in enumerate(w.net.links) if not getattr(l, "was_cut", False)])
-            w.cut(w.net.links[i])
-            ops = [("Cut", i)]
-            desc = ("cut", i)
+            st = ("cut", rng.choice([i for i, l in enumerate(w.net.links) if not getattr(l, "was_cut", False)]))
         elif r < p_restart + p_cut + p_timeout and any(w.connector(x) for x in NAMES):
-            x = rng.choice([x for x in NAMES if w.connector(x)])
-            w.timeout(x)
-            ops = [("Timeout", x)]
-            desc = ("timeout", x)
-        elif r < p_restart + p_cut + p_timeout + p_lookup or not net_steps:
-            x = rng.choice(NAMES)
-            k = rng.randint(1, maxhints)
-            new = w.lookup(x, k, full=False)
-            for l in new:
-                w.handshake_plaintext(l)
-            ops = [("GetRef", x)] + [("DialHint", x)] * len(new)
-            desc = ("lookup", x, k, len(new))
+            st = ("timeout", rng.choice([x for x in NAMES if w.connector(x)]))
+        elif r < p_restart + p_cut + p_timeout + p_retry:
+            st = ("armretry", rng.choice(NAMES), rng.randint(1, maxhints))
+        elif r < p_restart + p_cut + p_timeout + p_retry + p_lookup or not net_steps:
+            st = ("lookup", rng.choice(NAMES), rng.randint(1, maxhints))
         else:
             st = rng.choice(net_steps)
-            kind, i, side = st
-            l = w.net.links[i]
-            if kind == "deliver":
-                dest_end = 1 - side
-                dest = l.client_name if dest_end == 0 else other(l.client_name)
-                w.deliver_block(l, side)
-                ops = [("Deliver", i, dest)]
-            else:
-                who = l.client_name if side == 0 else other(l.client_name)
-                w.close_seen(l, side)
-                ops = [("CloseSeen", i, who)]
-            desc = st
-        groups.append((ops, obs_codes(w), desc))
-    return w, groups
+        tr.apply(st)
+    return w, tr.groups
+
+
+def scripted_traces():
+    """fixed schedules (independent of VERIF_SEED), one per family of behaviour the model must follow:
+    instant retry from an errback on the time-out and on the negotiation-failure path; one-sided cuts after
+    connections dialled in either direction followed by a redial of the side that noticed; raced cross-connect,
+    cut, new lookups; parallel hints with history"""
+    out = []
+    for x in NAMES:
+        for k in (1, 2):
+            tr = Tracer()                         # time-out path, retry armed, twice
+            for st in [("lookup", x, k), ("armretry", x, k), ("lookup", x, 1), ("timeout", x), ("armretry", x, 1), ("timeout", x),
+                       ("timeout", x)]:
+                tr.apply(st)
+            tr.drain()
+            out.append(tr)
+            tr = Tracer()                         # failure path: the only attempt is cut, the errback retries, the retry connects
+            tr.apply(("lookup", x, 1))
+            tr.apply(("armretry", x, k))
+            tr.apply(("cut", 0))
+            tr.drain()
+            tr.apply(("lookup", other(x), 1))
+            tr.drain()
+            out.append(tr)
+    for first in NAMES:
+        for noticer in NAMES:
+            for k in (1, 2):
+                tr = Tracer()
+                tr.apply(("lookup", first, 1))
+                tr.drain()
+                for rnd in range(2):
+                    cur = tr.w.live_broker_link("M")[0]
+                    l0 = tr.w.net.links[cur]
+                    tr.apply(("cut", cur))
+                    tr.apply(("closeseen", cur, tr.w.end_of(l0, noticer).side))
+                    hold = [("closeseen", cur, tr.w.end_of(l0, other(noticer)).side)]
+                    tr.apply(("lookup", noticer, k))
+                    tr.drain(hold)
+                    tr.drain()
+                    if tr.w.live_broker_link("M") is None:
+                        break
+                    noticer = other(noticer)
+                out.append(tr)
+    for order in (0, 1):
+        tr = Tracer()                             # cross-connect, cut, both look up again
+        tr.apply(("lookup", NAMES[order], 2))
+        tr.apply(("lookup", NAMES[1 - order], 1))
+        tr.drain()
+        cur = tr.w.live_broker_link("M")
+        if cur:
+            tr.apply(("cut", cur[0]))
+            tr.drain()
+        tr.apply(("lookup", "M", 1))
+        tr.apply(("lookup", "S", 2))
+        tr.drain()
+        tr.apply(("restart", NAMES[order]))
+        tr.apply(("lookup", NAMES[1 - order], 2))
+        tr.drain()
+        out.append(tr)
+    for tr in out:
+        tr.w.stop()
+    return [tr.groups for tr in out]
 
 
 # ---------------------------------------------------------------------------------------------
@@ -478,11 +606,47 @@ def lookups_problem(w, timeout_s):
     for r in w.results:
         if r.get("abandoned"):
             continue
+        how = "" if not r.get("depth") else " issued from inside the callback/errback of another lookup (depth %d, at t=%.1f)" % (
+            r["depth"], r["t0"])
         if len(r["fired"]) != 1:
-            return "a getReference of %s fired %d times (%r)" % (r["who"], len(r["fired"]), r["fired"])
+            return "a getReference of %s%s fired %d times (%r)" % (r["who"], how, len(r["fired"]), r["fired"])
         if r["at"][0] - r["t0"] > timeout_s + 1e-6:
-            return "a getReference of %s fired after %.1f s > CONNECTION_TIMEOUT" % (r["who"], r["at"][0] - r["t0"])
+            return "a getReference of %s%s fired after %.1f s > CONNECTION_TIMEOUT" % (r["who"], how, r["at"][0] - r["t0"])
     return None
+
+
+def lookup_sig(bad):
+    return "lookup-reentrant" if "issued from inside" in bad else "lookup"
+
+
+def tick(seconds):
+    """advance virtual time second by second, so that a timer fires at (about) its own time"""
+    for i in range(int(seconds)):
+        E.clock.advance(1)
+        E.turn()
+
+
+def drain(w, rng, chunk, T, rounds=6):
+    """virtual time: let every pending lookup reach its own CONNECTION_TIMEOUT (re-entrant retries start later)"""
+    for i in range(rounds):
+        if all(r.get("abandoned") or r["fired"] for r in w.results):
+            break
+        tick(T)
+        settle(w, rng, chunk)
+
+
+def random_reenter(rng):
+    return rng.choice([None, None, dict(left=1, on="err", hints=rng.randint(1, 3)), dict(left=2, on="both", hints=rng.randint(1, 2)),
+                       dict(left=1, on="ok", hints=1)])
+
+
+def deliver_all_but(w, rng, chunk, held):
+    for i in range(40000):
+        ps = [s for s in w.pending_steps() if s not in held]
+        if not ps:
+            return
+        w.do_net_step(rng.choice(ps), rng, chunk)
+    raise RuntimeError("no quiescence")
 
 
 def settle(w, rng, chunk=None):
@@ -502,24 +666,39 @@ def scenario(kind, seed, p):
         if kind == "crossfire":
             # both dial at once, 1-3 hints each, no faults: must end on ONE shared live connection, both lookups ok
             for x in NAMES:
-                w.lookup(x, p["hints"][x])
+                w.lookup(x, p["hints"][x], reenter=(p.get("reenter") or {}).get(x))
             settle(w, rng, chunk)
             bad = agreement_problem(w) or lookups_problem(w, T)
             if bad:
-                return "agreement" if "getReference" not in bad else "lookup", bad, facts
+                return "agreement" if "getReference" not in bad else lookup_sig(bad), bad, facts
             if w.live_broker_link("M") is None:
                 return "no-connection-without-faults", "a fault-free simultaneous connect ended without a connection", facts
             kinds = sorted(r["fired"][0] for r in w.results)
             facts["results"] = kinds
             if "ok" not in kinds:
                 return "no-lookup-succeeded", "fault-free cross-connect: every getReference failed: %r" % kinds, facts
+            if p.get("relookup"):
+                # the raced connection is lost (seen by both), then both look the peer up again: must not hang, must reconnect
+                n0 = len(w.results)
+                w.cut(w.net.links[w.live_broker_link("M")[0]])
+                settle(w, rng, chunk)
+                for x in p["relookup"]:
+                    w.lookup(x, rng.randint(1, 2), reenter=random_reenter(rng))
+                settle(w, rng, chunk)
+                drain(w, rng, chunk, T)
+                bad = lookups_problem(w, T) or agreement_problem(w)
+                if bad:
+                    return (lookup_sig(bad) if "getReference" in bad else "agreement"), "after a raced cross-connect was cut: " + bad, facts
+                if w.live_broker_link("M") is None or "ok" not in [r["fired"][0] for r in w.results[n0:]]:
+                    return "no-connection-without-faults", "after a raced cross-connect was cut, a new lookup did not reconnect: %r" % (
+                        [r["fired"] for r in w.results[n0:]],), facts
         elif kind == "faults":
             # lookups, deliveries, cuts, close notifications and restarts in random order; then everything settles
             for i in range(p["steps"]):
                 r = rng.random()
                 ps = w.pending_steps()
                 if r < 0.15 or not ps:
-                    w.lookup(rng.choice(NAMES), rng.randint(1, 3))
+                    w.lookup(rng.choice(NAMES), rng.randint(1, 3), reenter=random_reenter(rng) if p.get("reenter") else None)
                 elif r < 0.22 and w.net.links:
                     w.cut(rng.choice(w.net.links))
                 elif r < 0.25:
@@ -531,13 +710,12 @@ def scenario(kind, seed, p):
             if bad:
                 return "agreement", bad, facts
             # virtual time: everything still pending must be answered by CONNECTION_TIMEOUT
-            E.clock.advance(T)
-            E.turn()
-            settle(w, rng, chunk)
+            drain(w, rng, chunk, T)
             bad = lookups_problem(w, T) or agreement_problem(w)
             if bad:
-                return ("lookup" if "getReference" in bad else "agreement-after-timeout"), bad, facts
+                return (lookup_sig(bad) if "getReference" in bad else "agreement-after-timeout"), bad, facts
             facts["results"] = sorted(set(r["fired"][0] for r in w.results if not r.get("abandoned")))
+            facts["reentered"] = w.reentered
         elif kind == "redundant":
             # S (or M) connects with several hints in parallel, after some history: exactly ONE of the parallel
             # attempts may be accepted -- a later one from the same incarnation must not displace the first
@@ -612,23 +790,80 @@ def scenario(kind, seed, p):
                 return "agreement", bad, facts
             if w.live_broker_link(y) is None:
                 return "restart-does-not-displace", "the new connection did not survive the late close of the stale one", facts
+        elif kind == "one-sided-cut":
+            # a connection dialled by `first_dialer` is established; per round: the link dies, ONLY `noticer` sees it,
+            # and redials (same incarnation, k hints) while the other side still holds the stale Broker: the redial
+            # must replace the stale connection (the offer proves knowledge of the existing seqnum / the master has
+            # no Broker), exactly one offer is accepted, and the new connection survives the late close of the old
+            w.lookup(p["first_dialer"], 1)
+            settle(w, rng, chunk)
+            for rnd, (noticer, hints) in enumerate(p["rounds"]):
+                cur = w.live_broker_link("M")
+                bad = agreement_problem(w)
+                if bad or cur is None:
+                    return "agreement", "before round %d: %s" % (rnd, bad or "no connection"), facts
+                l0 = w.net.links[cur[0]]
+                dialled_by = l0.client_name
+                y = other(noticer)
+                w.cut(l0)
+                w.close_seen(l0, w.end_of(l0, noticer).side)
+                stale = w.live_broker_link(y)
+                held = [("closeseen", cur[0], w.end_of(l0, y).side)]
+                n0 = len(w.results)
+                new = w.lookup(noticer, hints)
+                deliver_all_but(w, rng, chunk, held)
+                E.clock.advance(0.5)
+                E.turn()
+                deliver_all_but(w, rng, chunk, held)
+                by, bx = w.live_broker_link(y), w.live_broker_link(noticer)
+                accepted = sum(1 for l in new if "connectionLost" in w.end_of(l, "M").protocol.__dict__)
+                tag = "dialled-by-%s/noticed-by-%s" % (dialled_by, noticer)
+                facts.update(round=rnd, tag=tag, stale=stale, y=by, x=bx, accepted=accepted, result=w.results[n0]["fired"],
+                             slave_table=[list(v) for v in w.tub["S"].slave_table.values()])
+                if stale is None:
+                    return "harness", "the side that did not notice lost its broker", facts
+                if by is None or bx is None or by[0] != bx[0] or by[0] == stale[0] or w.results[n0]["fired"] != ["ok"]:
+                    return ("stale-not-displaced-by-redial/" + tag,
+                            "round %d: the connection dialled by %s was cut and only %s noticed; %s redialled (%d hints) but the stale "
+                            "connection was not replaced: %s has %r (stale %r), %s has %r, lookup result %r, S.slave_table=%r"
+                            % (rnd, dialled_by, noticer, noticer, hints, y, by, stale, noticer, bx, w.results[n0]["fired"],
+                               facts["slave_table"]), facts)
+                if accepted != 1:
+                    return ("redundant-attempt-displaces-established/one-sided-cut",
+                            "round %d (%s): %d of %d parallel redial offers were accepted" % (rnd, tag, accepted, hints), facts)
+                settle(w, rng, chunk)
+                bad = agreement_problem(w) or lookups_problem(w, T)
+                if bad:
+                    return ("agreement" if "getReference" not in bad else lookup_sig(bad)), "round %d (%s): %s" % (rnd, tag, bad), facts
+                if w.live_broker_link("M") is None:
+                    return ("stale-not-displaced-by-redial/" + tag,
+                            "round %d (%s): the new connection did not survive the late close of the stale one" % (rnd, tag), facts)
         elif kind == "blackhole":
             # nothing is ever delivered: the lookup must fail at CONNECTION_TIMEOUT, not hang, not earlier
             x = p["who"]
-            w.lookup(x, p["hints"])
+            w.lookup(x, p["hints"], reenter=p.get("reenter"))
             if p.get("second"):
                 E.clock.advance(30)
-                w.lookup(x, p["hints"])
-            E.clock.advance(T - 31)
-            E.turn()
+                w.lookup(x, p["hints"], reenter=p.get("reenter"))
+            tick(T - 31)
             early = [list(r["fired"]) for r in w.results]
-            E.clock.advance(31)
-            E.turn()
+            tick(31)
             facts.update(early=early, final=[r["fired"] for r in w.results])
             if any(early):
                 return "lookup-fired-early", "lookup failed before CONNECTION_TIMEOUT although attempts were pending: %r" % early, facts
-            if any(len(r["fired"]) != 1 for r in w.results):
+            if any(len(r["fired"]) != 1 for r in w.results if not r["depth"]):
                 return "lookup", "lookup did not fire exactly once by CONNECTION_TIMEOUT: %r" % [r["fired"] for r in w.results], facts
+            if p.get("reenter"):
+                # the errback retried at once: each retry has its own CONNECTION_TIMEOUT, still nothing is delivered
+                want = (2 if p.get("second") else 1) * (1 + p["reenter"]["left"]) if p["reenter"]["on"] != "ok" else None
+                for i in range(p["reenter"]["left"] + 1):
+                    tick(T)
+                facts["final"] = [r["fired"] for r in w.results]
+                bad = lookups_problem(w, T)
+                if bad:
+                    return lookup_sig(bad), bad, facts
+                if want is not None and len(w.results) != want:
+                    return "harness", "expected %d lookups, saw %d" % (want, len(w.results)), facts
             settle(w, rng)
             bad = agreement_problem(w)
             if bad:
@@ -650,7 +885,7 @@ def run_case(ctx, kind, seed, p, nontrivial=True):
         ctx.fail("oracle/exception-escaped", "an exception escaped from the real Tubs in scenario %s %r: %r" % (kind, p, e),
                  replay=dict(kind=kind, seed=seed, params=p, tb=traceback.format_exc()))
         return None
-    ctx.case([kind, seed if kind in ("faults", "crossfire") else 0, p], nontrivial=nontrivial)
+    ctx.case([kind, seed if kind in ("faults", "crossfire", "one-sided-cut") else 0, p], nontrivial=nontrivial)
     ctx.hist("oracle_kind", kind)
     for r in facts.get("results", []) if isinstance(facts.get("results"), list) else []:
         ctx.hist("lookup_result", r if isinstance(r, str) else "/".join(r))
@@ -668,13 +903,54 @@ def run_corpus(ctx):
         ctx.hist("corpus", _os.path.basename(path))
 
 
+FIXED_REENTER = [dict(left=1, on="err", hints=1), dict(left=2, on="err", hints=2), dict(left=1, on="both", hints=1)]
+
+
+def run_fixed(ctx):
+    """a fixed battery (independent of VERIF_SEED): one witness family per kind of defect seen so far"""
+    # lookups that never fire / re-entrant lookups from errbacks (time-out path)
+    for who in NAMES:
+        for re_ in FIXED_REENTER:
+            for second in (False, True):
+                run_case(ctx, "blackhole", 0, dict(who=who, hints=2, second=second, reenter=re_))
+    # re-entrant lookups from errbacks on the negotiation-failure path, and lookups after a raced connection was lost
+    for sd in range(40):
+        hints = dict(M=1 + sd % 3, S=1 + (sd // 3) % 3)
+        run_case(ctx, "crossfire", 7000 + sd, dict(hints=hints, bytes=(sd % 4 == 0), relookup=[NAMES[sd % 2]] if sd % 5 else ["S", "M"],
+                                                    reenter=dict(M=FIXED_REENTER[sd % 3], S=FIXED_REENTER[(sd + 1) % 3])))
+    for sd in range(40):
+        run_case(ctx, "faults", 8000 + sd, dict(steps=[25, 50, 90][sd % 3], bytes=(sd % 4 == 1), reenter=True))
+    # one-sided cuts after connections dialled in both directions, redial from the side that noticed, several rounds
+    for first in NAMES:
+        for n1 in NAMES:
+            for n2 in NAMES:
+                for hints in (1, 2, 3):
+                    run_case(ctx, "one-sided-cut", 9000 + hints, dict(first_dialer=first, rounds=[(n1, hints), (n2, 1 + hints % 3), (n1, 1)],
+                                                                       bytes=(hints == 2)))
+    # parallel hints after every history, restarted peers
+    for who in NAMES:
+        for hist in ("fresh", "both-lost", "dialer-lost-only"):
+            for hints in (2, 3):
+                for sd in range(3):
+                    run_case(ctx, "redundant", 9500 + sd, dict(who=who, history=hist, hints=hints))
+        for first in NAMES:
+            for sd in range(2):
+                run_case(ctx, "restart-displaces", 9600 + sd, dict(who=who, first_dialer=first, bytes=bool(sd)))
+
+
 def run_all(ctx):
     rng = ctx.rng
     seed = lambda: rng.randrange(1 << 30)
-    for i in range(ctx.n(300, 6000)):
-        run_case(ctx, "crossfire", seed(), dict(hints=dict(M=rng.randint(1, 3), S=rng.randint(1, 3)), bytes=(i % 3 == 0)))
-    for i in range(ctx.n(400, 8000)):
-        run_case(ctx, "faults", seed(), dict(steps=rng.choice([10, 25, 50, 90]), bytes=(i % 4 == 0)))
+    run_fixed(ctx)
+    for i in range(ctx.n(100, 3000)):
+        run_case(ctx, "crossfire", seed(), dict(hints=dict(M=rng.randint(1, 3), S=rng.randint(1, 3)), bytes=(i % 3 == 0),
+                                                relookup=rng.choice([None, ["M"], ["S"], ["M", "S"]]),
+                                                reenter=dict(M=random_reenter(rng), S=random_reenter(rng))))
+    for i in range(ctx.n(200, 4000)):
+        run_case(ctx, "faults", seed(), dict(steps=rng.choice([10, 25, 50, 90]), bytes=(i % 4 == 0), reenter=True))
+    for i in range(ctx.n(30, 1500)):
+        rounds = [(rng.choice(NAMES), rng.randint(1, 3)) for k in range(rng.randint(1, 4))]
+        run_case(ctx, "one-sided-cut", seed(), dict(first_dialer=rng.choice(NAMES), rounds=rounds, bytes=(i % 3 == 0)))
     for who in NAMES:
         for hist in ("fresh", "both-lost", "dialer-lost-only", "peer-restarted"):
             for hints in (2, 3):
